@@ -542,7 +542,25 @@ def r9_round_local(ctx):
             ctx.obs.append(o)
 
 
+def r10_weight_validator(ctx):
+    """"moves to its next surviving choice at weight*(tally-threshold)/tally" and "the tallies reported are exactly the
+    first-place weights": the transfer functions compute that weight exactly and hand it to Ballot(...); it arrives only if
+    the weight validator of Ballot leaves a Fraction as it is.  Decided by the weight clauses of C11.R2."""
+    from rules import c11
+    sub = type(ctx)(ctx.prog, ctx.prop, ctx.tier)
+    c11.r2_validators(sub)
+    n = 0
+    for o in sub.obs:
+        if "weight" in (o.construct or "").lower():
+            o.rule = "C02.R10"
+            ctx.obs.append(o)
+            n += 1
+    if n < 1:
+        ctx.vanished(f"Ballot weight validator obligations: only {n}")
+
+
 RULES = [
+    ("C02.R10", r10_weight_validator, 3, "prerequisite: Ballot's weight validator keeps an exact Fraction weight as it is (C11.R2)"),
     ("C02.R1", r1_quota, 4, "droop/hare formulas over the constructor's total weight; unknown quota raises"),
     ("C02.R2", r2_single_writer, 3, "the threshold has a single writer (STV.__init__) and is returned unchanged once set"),
     ("C02.R3", r3_polarity, 2, "elected iff tally >= threshold at every comparison; prefix loop shape"),
